@@ -5,12 +5,14 @@ THEOREMS = {
             'Sync.merge_same_message', 'Sync.seq_stable_without_expunge'],
     'C02': ['C02.C02_log_inv', 'C02.C02_log_complete', 'C02.C02_noop_converges'],
     'C03': ['C03.C03_raw', 'C03.C03_size', 'C03.C03_header_text', 'C03.C03_partial'],
-    'C04': ['C04.C04_uid_monotone', 'C04.C04_uidnext', 'C04.C04_appenduid', 'C04.C04_copyuid_pairing', 'C15.C15_recover'],
+    'C04': ['C04.C04_uid_monotone', 'C04.C04_uidnext', 'C04.C04_appenduid', 'C04.C04_copyuid_pairing', 'C15.C15_recover',
+            'C15.C15_next_monotone', 'C15.C15_next_monotone_recover', 'C15.C15_append_uid_fresh'],
     'C05': ['C05.C05_state_only', 'C05.C05_gate', 'C05.C05_refused_noop', 'C05.C05_select', 'C05.C05_close', 'C05.C05_logout'],
     'C06': ['C06.C06_answered', 'C06.C06_no_serverbug', 'C06.C06_tagged', 'C18.C06_modutf7_total', 'C18.C18_framing'],
     'C07': ['C07.C07_envelope', 'C07.C07_body', 'C07.C07_wellformed', 'C18.C07_quoted_escape', 'C18.C07_build_safe', 'C18.C18_encode_ascii'],
     'C08': ['C08.C08_confined_default', 'C08.C08_confined_fs', 'C08.C08_escape_as_found'],
-    'C09': ['C05.C09_sound', 'C05.C09_no_reauth', 'C05.C09_logindisabled', 'C05.C09_failed_keeps', 'C05.C09_advertised_enforced', 'C05.C09_login_accepted_was_offered'],
+    'C09': ['C05.C09_sound', 'C05.C09_no_reauth', 'C05.C09_logindisabled', 'C05.C09_failed_keeps', 'C05.C09_advertised_enforced', 'C05.C09_login_accepted_was_offered',
+            'C05.C09_starttls_no_injection', 'C05.starttls_injection_as_found'],
     'C10': ['C10.C10_seqset', 'C10.C10_store_refines', 'C10.C10_expunge_refines', 'C10.C10_append_refines', 'C10.C10_permitted',
             'C10.C10_copy_refines', 'C10.C10_copy_uids', 'C10.C10_move_refines', 'C10.C10_server_copyMove', 'C10.C10_server_copy_spec', 'C10.C10_server_expunge'],
     'C11': ['C11.C11_star_all', 'C11.C11_pct', 'C11.C11_literal', 'C11.C11_list', 'C11.C11_inbox_guard',
@@ -19,7 +21,8 @@ THEOREMS = {
     'C13': ['C13.crit_iff', 'C13.C13_prefilter_sound', 'C13.C13_exact', 'C13.C13_uid_equiv', 'C13.C13_algebra', 'C13.C13_set_semantics'],
     'C14': ['C14.C14_conservation', 'C14.C14_move_loses_as_found', 'C14.C14_multiappend_atomic_full_false',
             'C14.C14_multiappend_atomic_partial'],
-    'C15': ['C15.C15_prefix', 'C15.C15_full', 'C15.C15_recover', 'C15.C15_crash_anywhere'],
+    'C15': ['C15.C15_prefix', 'C15.C15_full', 'C15.C15_recover', 'C15.C15_crash_anywhere',
+            'C15.C15_next_monotone', 'C15.C15_next_monotone_recover', 'C15.C15_append_uid_fresh'],
     'C16': ['C16.C16_no_lost_wakeup', 'C16.C16_progress', 'C16.C16_lost_wakeup_as_found'],
     'C17': ['C17.C17_at_most_one', 'C17.C17_first_rw_gets_it', 'C17.C17_not_stored_after'],
     'C18': ['C18.C18_roundtrip_quoted', 'C18.C18_roundtrip_number', 'C18.C18_modutf7', 'C18.C18_encode_ascii', 'C18.C18_framing', 'C18.C18_astring_spelling',
